@@ -193,6 +193,10 @@ let () =
               | OCycle c -> ps "CYCLE "; p_list (fun s -> p_sp (stmt_span s)) c
               | OOutOfFuel -> ps "OUTOFFUEL");
              print_endline (Buffer.contents b)
+         | "anndeps" ->
+             (* the hypothesis of C08_order_then_backend_erase on a REAL resolved program *)
+             let r = read_resolved line in
+             print_endline ("ANNDEPS " ^ (if ann_deps_ok gen_assign_target_deps r.r_stmts then "t" else "f"))
          | "modules" ->
              (match String.split_on_char '\t' line with
               | main :: std :: files ->
